@@ -269,7 +269,10 @@ func runC18(c *vf.Case) {
 			total += len(wsref.Frame{Fin: true, Opcode: 1, Payload: m.Payload}.Encode())
 		}
 		segClass := "whole"
-		switch r.Intn(5) {
+		switch r.Intn(6) {
+		case 5:
+			rs.cuts = []int{len(probe) - r.Range(1, 3)} // inside the CRLF CRLF that ends the response head
+			segClass = "cut-inside-blank-line"
 		case 0, 1:
 			rs.cuts = []int{r.Intn(total)}
 			segClass = "one-cut"
@@ -432,7 +435,7 @@ func init() {
 	register(&vf.Check{
 		ID:        "C18",
 		Technique: "runtime monitor with the harness as a raw TCP server: request validation, acceptance predicate computed independently (own SHA-1/base64 path), scripted responses (status, header set/order/case/whitespace, wrong accept, truncation, segmentation) and piggy-backed wsref frames compared with what the client reads; bounded-progress probes for lost bytes",
-		Rule: "cases = 1-4 consecutive handshakes on one Stream (blocking and asynchronous), each against a scripted response: status {101, 101 with other text, 200, 400}, Upgrade {websocket in 3 spellings, other, absent}, Connection present/absent, Accept {correct, wrong, of another key, missing}, 0-3 extra headers, header order permuted, header-name case {canonical, lower, upper}, separator {': ', ':', ':   ', trailing blanks}, response+frames sent whole / cut at 1-2 random offsets / cut exactly at the blank line, server closing after k bytes, 0-3 frames piggy-backed and 0-2 sent later; " +
+		Rule: "cases = 1-4 consecutive handshakes on one Stream (blocking and asynchronous), each against a scripted response: status {101, 101 with other text, 200, 400}, Upgrade {websocket in 3 spellings, other, absent}, Connection present/absent, Accept {correct, wrong, of another key, missing}, 0-3 extra headers, header order permuted, header-name case {canonical, lower, upper}, separator {': ', ':', ':   ', trailing blanks}, response+frames sent whole / cut at 1-2 random offsets / cut exactly at the blank line / cut inside the CRLF CRLF, server closing after k bytes, 0-3 frames piggy-backed and 0-2 sent later; " +
 			"every case is non-trivial; distinct = sequence of (response class, segmentation, API)",
 		Assumptions: []string{
 			"acceptance = status 101 AND Upgrade: websocket (case-insensitive) AND Sec-WebSocket-Accept = base64(sha1(key+GUID)), exactly as the statement lists; the Connection response header is not part of it",
